@@ -104,6 +104,9 @@ func NewLength(a *AttributeExpr, r *ExampleGenerator) int {
 		count := 0
 		if math.IsInf(minlength, 1) {
 			count = int(maxlength) - (r.Int() % 3)
+			if count < 0 {
+				count = 0
+			}
 		} else if math.IsInf(maxlength, -1) {
 			count = int(minlength) + (r.Int() % 3)
 		} else if minlength < maxlength {
